@@ -137,7 +137,7 @@ impl Ctx {
 }
 
 impl Ctx {
-    /// request (7 len): TextSelection::relative_offset called directly for EVERY pair of ranges
+    /// request (7 len): ResultTextSelection::relative_offset (and through it TextSelection::relative_offset) for EVERY pair of ranges
     /// (b, e), (pb, pe) over a text of that length (embedded or not, overlapping, disjoint, either
     /// side), in the four modes: one sub-case per pair = four reports (or (-1) for None, (2) for a panic)
     fn exec_pairs(&self, req: &Sx) -> (Sx, Vec<Sx>, bool) {
@@ -155,7 +155,7 @@ impl Ctx {
                             let r = guard(|| {
                                 let t = res.textselection(&Offset::simple(b, e)).unwrap();
                                 let c = res.textselection(&Offset::simple(pb, pe)).unwrap();
-                                t.inner().relative_offset(c.inner(), *m).map(|ro| {
+                                t.relative_offset(&c, *m).map(|ro| {
                                     let rr = c.textselection(&ro).ok().map(|t| (t.begin() as i64, t.end() as i64)).unwrap_or((-1, -1));
                                     (ro, rr)
                                 })
